@@ -102,7 +102,7 @@ def _parse_xml_string(xml_string, parser, charset=None):
     if charset:
         try:
             string = string.decode(charset)
-        except (UnicodeDecodeError, LookupError) as e:
+        except (UnicodeError, LookupError) as e:
             raise Fault('Client.XMLSyntaxError', str(e))
 
     try:
